@@ -383,6 +383,11 @@ def directed_cases():
     return [
         {'kind': 'cart-regular', 'cache': True, 'dims': [5, 5], 'delta': 0.25, 'D': 1.0, 'reqs': reqs},
         {'kind': 'cart-regular', 'cache': False, 'dims': [3, 4], 'delta': 0.25, 'D': 0.75, 'reqs': reqs_mixed},
+        # round 5: a regular pupil grid with 12 pixels *exactly* on the rim 2r = D ((+-3,+-4)/8, (+-4,+-3)/8, (+-5,0)/8, (0,+-5)/8; hypot exact):
+        # the mask `(2 r) < D` is strict, the rim is outside (model: rim_is_outside, rim_cartesian); without cut-off the value there is
+        # the azimuthal factor alone because R_n^m(1) = 1 (mode_on_rim)
+        {'kind': 'cart-regular', 'cache': True, 'dims': [11, 11], 'delta': 0.125, 'D': 1.25,
+         'reqs': [[n, m, (n + m) % 4 == 0] for n, m in modes if n in (0, 1, 2, 3, 4, 7, 12, 19, 20)]},
         {'kind': 'cart-points', 'cache': True, 'x': [0.0, 0.375, -0.3125, 0.5, 0.0], 'y': [0.0, 0.5, 0.75, 0.0, -0.25], 'D': 1.25, 'reqs': reqs_mixed},
         {'kind': 'polar-points', 'cache': True, 'D': 1.5, 'r': [0.0, 0.75, 0.125, 0.5, 1.0, 2.0 ** -20], 'ang': angs + [[4, 3, 5]], 'reqs': reqs},
         {'kind': 'polar-separated', 'cache': True, 'D': 1.0, 'R': [0.0, 0.125, 0.25, 0.4375, 0.5, 0.625], 'ang': angs, 'reqs': reqs_mixed},
@@ -435,6 +440,14 @@ def pts_line(pts, case=None):
         return 'C13 pts polar %s %s %s' % (rat_list(pts[1]), rat_list([Fraction(c, d) for c, s, d in pts[2]]),
                                            rat_list([Fraction(s, d) for c, s, d in pts[2]]))
     return 'C13 pts cart %s %s' % (rat_list(pts[1]), rat_list(pts[2]))
+
+
+def rim_mask(pts, D):
+    """points exactly on the rim 2r = D, decided on exact rationals"""
+    Df = Fraction(D)
+    if pts[0] == 'polar':
+        return np.array([2 * Fraction(r) == Df for r in pts[1]], dtype=bool)
+    return np.array([4 * (Fraction(x) ** 2 + Fraction(y) ** 2) == Df * Df for x, y in zip(pts[1], pts[2])], dtype=bool)
 
 
 def cut_info(pts, D):
@@ -550,7 +563,7 @@ def real_values(hz, grid, D, reqs, cache, trace=None):
     return res
 
 
-def judge(case, real, fresh, refs, amb, npts):
+def judge(case, real, fresh, refs, amb, npts, rim=None):
     """The property clauses on the observations of the real code. Returns [(key, what)]."""
     bad = []
     kind = case['kind']
@@ -571,6 +584,12 @@ def judge(case, real, fresh, refs, amb, npts):
         elif (err > TOL * scale).any():
             j = int(np.argmax(err))
             bad.append(('value ' + kind, '%s = %.12g at point %d, definition gives %.12g' % (tag, z[j], j, refd[j]), qi))
+        if rim is not None and rim.any() and cut:
+            # the aperture is the open disc: with the cut-off a point exactly on the rim carries exactly 0 (no tolerance)
+            nz = rim & ~amb & ~(z == 0.0)
+            if nz.any():
+                j = int(np.nonzero(nz)[0][0])
+                bad.append(('rim-not-outside ' + kind, '%s = %r at point %d, which lies exactly on the rim 2r = D (mask is `(2 r) < D`: 0 expected)' % (tag, z[j], j), qi))
         if case['cache'] and not isinstance(zf, str) and zf.shape == z.shape:
             d = ~((z == zf) | (np.isnan(z) & np.isnan(zf)))
             if d.any():
@@ -599,7 +618,7 @@ def shrink(hz, case, key, qi):
              dict(case, reqs=same + [reqs[qi]]), dict(case, reqs=reqs[:qi + 1])]
     for c in cands:
         grid, pts, real, fresh, outside, amb, refs = observe(hz, c)
-        for k, what, _ in judge(c, real, fresh, refs, amb, len(pts[1])):
+        for k, what, _ in judge(c, real, fresh, refs, amb, len(pts[1]), rim_mask(pts, c['D'])):
             if k == key:
                 return c, what
     return case, None
@@ -766,7 +785,8 @@ def check_values(ctx, hz):
         trace = [] if case['cache'] else None
         grid, pts, real, fresh, outside, amb, refs = observe(hz, case, trace)
         npts = len(pts[1])
-        bad = judge(case, real, fresh, refs, amb, npts)
+        rim = rim_mask(pts, case['D'])
+        bad = judge(case, real, fresh, refs, amb, npts, rim)
         if trace is not None:
             # the cache itself: every slot valid and never modified; a spoiled slot is turned into a failing request
             # history by asking for that mode once more, without cut-off
@@ -774,7 +794,7 @@ def check_values(ctx, hz):
                 ctx.count('cache-slot-spoiled')
                 pc = dict(case, reqs=case['reqs'] + [probe]) if probe else case
                 g2, p2, real2, fresh2, out2, amb2, refs2 = observe(hz, pc)
-                found = [(k, w, qi) for k, w, qi in judge(pc, real2, fresh2, refs2, amb2, len(p2[1])) if qi == len(pc['reqs']) - 1 or not probe]
+                found = [(k, w, qi) for k, w, qi in judge(pc, real2, fresh2, refs2, amb2, len(p2[1]), rim_mask(p2, pc['D'])) if qi == len(pc['reqs']) - 1 or not probe]
                 if found:
                     k, w, qi = found[0]
                     small, what2 = shrink(hz, pc, k, qi)
@@ -794,6 +814,9 @@ def check_values(ctx, hz):
         rr = np.array(pts[1]) if pts[0] == 'polar' else np.hypot(np.array(pts[1]), np.array(pts[2]))
         has0 = bool((rr == 0).any()); hasrim = bool((2 * rr == case['D']).any())
         ctx.count('cases-with-centre-point', int(has0)); ctx.count('cases-with-rim-point', int(hasrim))
+        ctx.count('rim-exact-points:' + case['kind'], int((rim & ~amb).sum()))
+        ctx.count('rim-exact-evaluations:cutoff', int((rim & ~amb).sum()) * sum(1 for q in case['reqs'] if q[2]))
+        ctx.count('rim-exact-evaluations:no-cutoff', int((rim & ~amb).sum()) * sum(1 for q in case['reqs'] if not q[2]))
         lines.append(pts_line(pts, case))
         base_slot = len(slots)
         if trace is not None and len(trace) == len(case['reqs']):
@@ -1754,6 +1777,244 @@ def check_spellings(ctx, hz):
         if r:
             ctx.disagree('C13 spelling', {'label': label, 'case': case, 'n': n, 'm': m, 'detail': r[1]})
 
+
+# =============================================================================================
+# Part H (round 5): beyond the table.  The theorems radial_matches_definition, radial_at_zero and radial_at_one hold for
+# EVERY radial order; the recursion of the code is run here for orders 21 ... 40 (thorough 44), always against one cache per
+# history (without a cache the code's recursion is exponential in n - |m|), in random request orders — including the histories
+# "higher |m| first, then lower |m|" that resume from cached intermediate results — at r = 0, r = 1 (the rim: value 1), r = 2^-12
+# and random dyadic radii up to 1.125.  Oracle: the factorial definition in exact integer arithmetic, the unit-circle identity
+# R_n^m(1) = 1, the centre value.  Correspondence: `C13 radial n m r` (radialEval, exact rationals).
+# =============================================================================================
+
+def exact_radial(n, m, r):
+    r = Fraction(r)
+    return sum(Fraction(c) * r ** e for e, c in def_coeffs(n, m))
+
+
+def gen_high_case(rng, nhi):
+    n = int(rng.integers(NMAX + 1, nhi + 1))
+    ms = list(range(n % 2, n + 1, 2))
+    u = rng.random()
+    if u < 0.35:
+        order = sorted(ms, reverse=True)                          # ANSI-like: |m| decreasing, every step resumes from the cache
+    elif u < 0.5:
+        order = sorted(ms)
+    else:
+        order = [ms[int(i)] for i in rng.permutation(len(ms))]
+    k = int(rng.integers(3, len(order) + 1))
+    order = order[:k]
+    if rng.random() < 0.5:
+        order.append(order[int(rng.integers(0, len(order)))])      # a repeated request (cache hit on ('rad', n, m))
+    signs = [int(m if rng.random() < 0.5 else -m) for m in order]
+    rs = [Fraction(0), Fraction(1), Fraction(1, 2 ** 12)] + [Fraction(int(rng.integers(1, 289)), 256) for _ in range(3)]
+    return {'what': 'high', 'n': n, 'ms': signs, 'r': [str(r) for r in rs], 'two_orders': bool(rng.random() < 0.3)}
+
+
+def run_high(hz, case):
+    """Returns ([(key, what, index)], values): one cache for the whole history; with `two_orders` the history is run for n and n - 2
+    interleaved against the same cache (keys of different orders must not interfere)."""
+    rs = [Fraction(r) for r in case['r']]
+    rf = np.array([float(r) for r in rs])
+    cache = {}
+    reqs = []
+    for m in case['ms']:
+        reqs.append((case['n'], m))
+        if case.get('two_orders') and abs(m) <= case['n'] - 2:
+            reqs.append((case['n'] - 2, m))
+    bad, vals = [], []
+    before = rf.tobytes()
+    with warnings.catch_warnings():
+        warnings.simplefilter('ignore')
+        for qi, (n, m) in enumerate(reqs):
+            try:
+                v = np.array(np.broadcast_to(np.asarray(hz.zernike_radial(n, m, rf, cache), dtype=float), rf.shape))
+            except Exception as e:      # noqa
+                bad.append(('high-order raises', 'zernike_radial(%d,%d,r,cache) raises %s: %s' % (n, m, type(e).__name__, e), qi))
+                vals.append(None); continue
+            vals.append(v)
+            ref = [exact_radial(n, abs(m), r) for r in rs]
+            for j, (r, x, e) in enumerate(zip(rs, v, ref)):
+                ef = to_float(e)
+                if not (abs(x - ef) <= TOL * max(1.0, abs(ef))):
+                    if r == 1:
+                        key, txt = 'unit-circle', 'R_n^m(1) = 1 for every order'
+                    elif r == 0:
+                        key, txt = 'high-order centre', 'centre value (-1)^(n/2) for m = 0, else 0'
+                    else:
+                        key, txt = 'high-order value', 'factorial definition'
+                    bad.append((key, 'zernike_radial(%d,%d,%s) = %r after %d cached requests, %s gives %.15g' % (n, m, r, float(x), qi, txt, ef), qi))
+                    break
+    if rf.tobytes() != before:
+        bad.append(('input-mutated zernike_radial', 'zernike_radial changed its argument r (order %d)' % case['n'], 0))
+    return bad, (reqs, vals)
+
+
+def check_high_orders(ctx, hz):
+    nhi = ctx.scale(40, 44)
+    lines, slots, pslots = [], [], []
+    for k in range(ctx.scale(14, 36)):
+        case = gen_high_case(ctx.rng, nhi)
+        bad, (reqs, vals) = run_high(hz, case)
+        seen = set()
+        for key, what, qi in bad:
+            if key in seen:
+                continue
+            seen.add(key)
+            # shrink: the failing request alone, then the history up to it
+            small = case
+            pos = [i for i, q in enumerate(reqs) if q[0] == case['n']]
+            for cand in (dict(case, ms=[reqs[qi][1]], two_orders=False, n=reqs[qi][0]),
+                         dict(case, ms=[m for (n_, m) in reqs[:qi + 1] if n_ == reqs[qi][0]], two_orders=False, n=reqs[qi][0])):
+                if any(k2 == key for k2, _, _ in run_high(hz, cand)[0]):
+                    small = cand; break
+            ctx.violation(key, what, small)
+        # the same history (first requests) run on the symbolic argument: the code's recursion returns its coefficient list, which must be the
+        # factorial coefficients (exact integers) — theorem radial_poly_eq_def, every order — and the model's radialPoly
+        pcase = {'what': 'poly', 'cache': True, 'reqs': [[n, m] for n, m in reqs[:6]]}
+        pbad, obs = run_poly(hz, pcase)
+        pseen = set()
+        for key, what, qi in pbad:
+            if key not in pseen:
+                pseen.add(key)
+                ctx.violation(key, what, dict(pcase, reqs=pcase['reqs'][:qi + 1]))
+        ctx.count('high-order-symbolic-requests', len(obs))
+        for (n, m), co in zip(pcase['reqs'], obs):
+            pslots.append((len(lines), n, m, co))
+            lines.append('C13 poly %d %d' % (n, abs(m)))
+            lines.append('C13 defpoly %d %d' % (n, abs(m)))
+        ctx.count('high-order-histories'); ctx.count('high-order:n=%d' % case['n']); ctx.count('high-order-requests', len(reqs))
+        ctx.count('high-order:two-orders=%r' % case['two_orders'])
+        for (n, m), v in zip(reqs, vals):
+            ctx.case({'what': 'high', 'n': n, 'm': m}, ('high', n, m))
+            for j, r in enumerate(case['r']):
+                slots.append((len(lines), n, m, r, None if v is None else float(v[j])))
+                lines.append('C13 radial %d %d %s' % (n, abs(m), r))
+    out = ctx.model(lines)
+    for idx, n, m, co in pslots:
+        if not (out[idx].startswith('ok ') and out[idx + 1].startswith('ok ')):
+            raise MachineryError('model answered %r / %r to %r' % (out[idx][:60], out[idx + 1][:60], lines[idx]))
+        ctx.traces_validated += 2
+        if out[idx] != out[idx + 1]:
+            ctx.disagree('C13 poly high', {'n': n, 'm': m, 'radialPoly': out[idx][:200], 'radialDef': out[idx + 1][:200], 'theorem': 'radial_poly_eq_def'})
+        ml = parse_rat_list(out[idx + 1][3:])
+        if [int(q) if q.denominator == 1 else q for q in ml] != dense_def(n, m):
+            ctx.disagree('C13 defpoly', {'n': n, 'm': m, 'model': out[idx + 1][:200], 'definition': dense_def(n, m)})
+        mv = np.array([to_float(q) for q in parse_rat_list(out[idx][3:])])
+        if isinstance(co, str) or len(co) > len(mv) and np.any(co[len(mv):] != 0):
+            ctx.disagree('C13 poly high', {'n': n, 'm': m, 'impl': co if isinstance(co, str) else 'degree %d' % (len(co) - 1), 'model': 'degree %d' % (len(mv) - 1)})
+            continue
+        a = np.zeros(len(mv)); a[:min(len(co), len(mv))] = co[:len(mv)]
+        if np.isnan(a).any() or (np.abs(a - mv) > TOL * max(1.0, float(np.max(np.abs(mv))))).any():
+            ctx.disagree('C13 poly high', {'n': n, 'm': m, 'impl': [repr(v) for v in co][:8], 'model': out[idx][3:120]})
+    for idx, n, m, r, v in slots:
+        if not out[idx].startswith('ok '):
+            raise MachineryError('model answered %r to %r' % (out[idx][:60], lines[idx]))
+        ctx.traces_validated += 1
+        q = Fraction(out[idx][3:])
+        if Fraction(r) == 1 and q != 1:
+            ctx.disagree('C13 radial high', {'n': n, 'm': m, 'r': r, 'model': str(q), 'theorem radial_at_one': '1'})
+        mv = to_float(q)
+        if v is None or np.isnan(v) or abs(v - mv) > TOL * max(1.0, abs(mv)):
+            ctx.disagree('C13 radial high', {'n': n, 'm': m, 'r': r, 'impl': repr(v), 'model': str(q)[:80]})
+
+
+def gen_highmode_case(rng, nhi):
+    """zernike() itself beyond the table: one radial order n in 21..nhi, a cached history over several m of either sign with and
+    without the cut-off, on an unstructured or separated polar grid that contains the centre, the exact rim and radii around it"""
+    n = int(rng.integers(NMAX + 1, nhi + 1))
+    ms = list(range(n % 2, n + 1, 2))
+    pick = sorted(set(int(i) for i in rng.integers(0, len(ms), size=int(rng.integers(3, 7)))), reverse=bool(rng.random() < 0.6))
+    reqs = []
+    for i in pick:
+        m = ms[i] if rng.random() < 0.5 else -ms[i]
+        reqs.append([n, int(m), bool(rng.random() < 0.6)])
+    if rng.random() < 0.5:
+        q = reqs[int(rng.integers(0, len(reqs)))]
+        reqs.append([q[0], -q[1], not q[2]])
+    D = gen_D(rng)
+    rs = [r for r in gen_radii(rng, D, int(rng.integers(5, 9))) if r <= 0.5625 * D]
+    case = {'what': 'highmode', 'cache': True, 'D': D, 'reqs': reqs}
+    if rng.random() < 0.5:
+        case.update(kind='polar-points', r=rs, ang=[list(gen_angle(rng)) for _ in rs])
+    else:
+        case.update(kind='polar-separated', R=rs, ang=[list(gen_angle(rng)) for _ in range(int(rng.integers(1, 4)))])
+    return case
+
+
+def run_highmode(hz, case):
+    grid, pts = build(case)
+    D = case['D']
+    real = real_values(hz, grid, D, case['reqs'], {} if case['cache'] else None)
+    outside, amb = cut_info(pts, D)
+    rim = rim_mask(pts, D)
+    npts = len(pts[1])
+    th = np.array([np.arctan2(LD(s_) / LD(d), LD(c) / LD(d)) for c, s_, d in pts[2]], dtype=LD)
+    bad, mags = [], []
+    for qi, ((n, m, cut), z) in enumerate(zip(case['reqs'], real)):
+        tag = 'zernike(%d,%d,D=%r,cutoff=%s) on %s grid' % (n, m, D, cut, case['kind'])
+        R = np.array([LD(to_float(exact_radial(n, abs(m), 2 * Fraction(r) / Fraction(D)))) for r in pts[1]], dtype=LD)
+        A = np.sqrt(LD(2)) * np.cos(m * th) if m > 0 else (np.sqrt(LD(2)) * np.sin(-m * th) if m < 0 else np.ones(npts, dtype=LD))
+        Z = np.sqrt(LD(n + 1)) * R * A
+        Rm = R
+        if cut:
+            Z = np.where(outside, LD(0), Z); Rm = np.where(outside, LD(0), R)
+        mag = float(np.max(np.abs(np.sqrt(LD(2 * (n + 1))) * Rm))) if npts else 0.0
+        mags.append(mag)
+        if isinstance(z, str):
+            bad.append(('high-order mode raises', '%s %s' % (tag, z), qi)); continue
+        if z.shape != (npts,):
+            bad.append(('high-order mode field-length', '%s returned %d values for %d grid points' % (tag, z.size, npts), qi)); continue
+        err = np.abs(z - Z.astype(float))
+        if np.isnan(z).any() or (err > TOL * max(1.0, mag)).any():
+            j = int(np.nanargmax(np.where(np.isnan(z), np.inf, err)))
+            bad.append(('high-order mode value ' + case['kind'], '%s = %.12g at point %d (r = %r), definition gives %.12g' % (tag, z[j], j, pts[1][j], float(Z[j])), qi))
+        if cut and (rim & ~(z == 0.0)).any():
+            j = int(np.nonzero(rim & ~(z == 0.0))[0][0])
+            bad.append(('rim-not-outside ' + case['kind'], '%s = %r at point %d, exactly on the rim 2r = D' % (tag, z[j], j), qi))
+    return bad, (pts, real, mags, rim)
+
+
+def check_high_modes(ctx, hz):
+    nhi = ctx.scale(40, 44)
+    lines, slots = [], []
+    for k in range(ctx.scale(10, 30)):
+        case = gen_highmode_case(ctx.rng, nhi)
+        bad, (pts, real, mags, rim) = run_highmode(hz, case)
+        seen = set()
+        for key, what, qi in bad:
+            if key in seen:
+                continue
+            seen.add(key)
+            small = dict(case, reqs=[case['reqs'][qi]])
+            if not any(k2 == key for k2, _, _ in run_highmode(hz, small)[0]):
+                small = dict(case, reqs=case['reqs'][:qi + 1])
+            ctx.violation(key, what, small)
+        ctx.count('high-order-mode-cases:' + case['kind']); ctx.count('high-order-mode-requests', len(case['reqs']))
+        ctx.count('high-order-mode-rim-points', int(rim.sum()))
+        lines.append(pts_line(pts, case))
+        for (n, m, cut), z, mag in zip(case['reqs'], real, mags):
+            ctx.case({'what': 'highmode', 'n': n, 'm': m, 'cutoff': cut, 'kind': case['kind']}, ('highmode', case['kind'], n, m, bool(cut)))
+            slots.append((len(lines), case, n, m, cut, z, mag))
+            lines.append('C13 mode %d %d %s %d' % (n, m, rat(case['D']), 1 if cut else 0))
+            lines.append('C13 normsq %d %d' % (n, m))
+    out = ctx.model(lines)
+    for idx, case, n, m, cut, z, mag in slots:
+        if not (out[idx].startswith('ok ') and out[idx + 1].startswith('ok ')):
+            raise MachineryError('model answered %r / %r to %r' % (out[idx][:60], out[idx + 1][:60], lines[idx]))
+        q = parse_rat_list(out[idx][3:])
+        nsq = Fraction(out[idx + 1][3:])
+        nf = np.sqrt(LD(nsq.numerator) / LD(nsq.denominator))
+        mv = np.array([float(nf * LD(to_float(v))) for v in q])
+        ctx.traces_validated += 1
+        if isinstance(z, str) or z.shape != mv.shape:
+            ctx.disagree('C13 mode high', {'case': case, 'req': [n, m, cut], 'impl': z if isinstance(z, str) else 'length %d' % z.size, 'model': 'length %d' % len(mv)})
+            continue
+        err = np.abs(z - mv)
+        if np.isnan(z).any() or (err > TOL * max(1.0, mag)).any():
+            j = int(np.nanargmax(np.where(np.isnan(z), np.inf, err)))
+            ctx.disagree('C13 mode high', {'case': {k: v for k, v in case.items() if k != 'reqs'}, 'req': [n, m, cut], 'point': j, 'impl': repr(z[j]), 'model': repr(mv[j])})
+
 # =============================================================================================
 
 def run(ctx):
@@ -1775,6 +2036,7 @@ def run(ctx):
                 '(E) the radial polynomial as a polynomial: zernike_radial run on the symbolic argument numpy Polynomial([0,1]) (all 121 pairs n <= 20, any request order, with/without one shared cache) against the factorial coefficients (oracle) and the coefficient lists of the model recursion (radialPoly); peval of the model list = radialEval = the code at sampled radii (0, 1, 2^-20, k/256); the Gram matrix of zernike_radial under 32-point Gauss-Legendre quadrature with weight r against delta/(2(n+1)) (oracle) and the exact integral of the model product polynomial (pint01). '
                 '(F) make_zernike_basis(num, D, grid, starting_mode, ansi, radial_cutoff, use_cache) on unstructured and separated polar grids (all 231 modes directed, random windows of indices, every combination of the keyword defaults): every column against the definition of the mode the documented ordering names (oracle) and against the column of the array-level model basisA (C13 abasis), grid coordinates byte-identical afterwards. '
                 '(G) the Field generators of make_zernike_basis(num, D, None, …) called in random order (some repeatedly) on two polar grids (half of the time of equal size but different points), each call against the definition on the grid it was handed (oracle) and against the model runGensA without a shared cache (C13 gens own). '
+                '(H) beyond the table: zernike_radial for orders 21..40 (thorough 44) in cached request histories (|m| decreasing / increasing / random, repeated requests, two radial orders interleaved in one cache) at r = 0, 1, 2^-12 and random dyadic radii up to 1.125, against the factorial definition in exact integers, the unit-circle identity R_n^m(1) = 1 and the centre value (oracle) and against radialEval of the model (C13 radial); the first requests of each history also on the symbolic argument (coefficient list of the code = factorial coefficients in exact integers = C13 poly = C13 defpoly, theorem radial_poly_eq_def for every order) — the theorems radial_matches_definition / radial_at_one / radial_at_zero hold for every order. The complete zernike() for the same orders on unstructured / separated polar grids (centre, exact rim, radii around it, Pythagorean directions; cached histories over several m of either sign, with and without the cut-off) against exact-integer radial definition x 80-bit azimuthal factor (oracle) and against C13 mode x sqrt(C13 normsq) (model). Rim: points exactly on 2r = D (polar grids: always; regular pupil grids: Pythagorean pixels) carry exactly 0 with the cut-off (rim-not-outside). '
                 'Non-trivial = a mode evaluation on a non-empty grid; distinct by (grid kind, n, m, cutoff, cache, centre present, rim present).')
     ctx.assumptions += ['np.hypot / arctan2 / cos / sin / pow are accurate to a few ulp',
                         'float sqrt in the index maps is tied only on the exhaustively compared range',
@@ -1796,7 +2058,10 @@ def run(ctx):
     check_abasis(ctx, hz)
     ctx.extra['time_abasis_s'] = round(time.time() - t, 1); t = time.time()
     check_gens(ctx, hz)
-    ctx.extra['time_gens_s'] = round(time.time() - t, 1)
+    ctx.extra['time_gens_s'] = round(time.time() - t, 1); t = time.time()
+    check_high_orders(ctx, hz)
+    check_high_modes(ctx, hz)
+    ctx.extra['time_high_orders_s'] = round(time.time() - t, 1)
     by = {}
     for d in ctx.disagreements:
         by[d['stream']] = by.get(d['stream'], 0) + 1
@@ -1846,6 +2111,16 @@ def replay(ctx, case):
     elif what == 'noll-injective':
         seen = set(hz.noll_to_zernike(i) for i in range(1, case['N'] + 1))
         ok = len(seen) == case['N']
+    elif what == 'highmode':
+        bad = run_highmode(hz, case)[0]
+        for key, what_, _ in bad[:5]:
+            print('  fails:', key, '-', what_)
+        ok = not bad
+    elif what == 'high':
+        bad = run_high(hz, case)[0]
+        for key, what_, _ in bad[:5]:
+            print('  fails:', key, '-', what_)
+        ok = not bad
     elif what == 'gens':
         bad = run_gens(hz, case)[0]
         for key, what_, _ in bad[:5]:
@@ -1881,7 +2156,7 @@ def replay(ctx, case):
                 print('  fails:', v['key'], '-', v['what']); ok = False
     else:
         grid, pts, real, fresh, outside, amb, refs = observe(hz, case)
-        bad = judge(case, real, fresh, refs, amb, len(pts[1]))
+        bad = judge(case, real, fresh, refs, amb, len(pts[1]), rim_mask(pts, case['D']))
         for key, what_, _ in bad[:5]:
             print('  fails:', key, '-', what_)
         ok = not bad
